@@ -260,7 +260,8 @@ def text_mutations(g, m):
     out.append(('nr_not_integer', t.replace('nr : 8', 'nr : 8.5')))
     out.append(('cutoff_nonnumeric', t.replace('cutoff : 3.5', 'cutoff : far')))
     out.append(('nr_zero', t.replace('nr : 8', 'nr : 0')))
-    out.append(('cutoff_nonfinite', t.replace('cutoff : 3.5', 'cutoff : ' + g.choice(['nan', 'inf']))))
+    out.append(('cutoff_nonfinite', t.replace('cutoff : 3.5', 'cutoff : ' + g.choice(['nan', 'inf', '-inf']))))
+    if m['kind'] != 'pair': out.append(('cutoff_rho_nonfinite', t.replace('cutoff_rho : 3.0', 'cutoff_rho : ' + g.choice(['nan', 'inf']))))
     out.append(('cutoff_negative', t.replace('cutoff : 3.5', 'cutoff : -3.5')))
     out.append(('all_three_grid_options', t.replace('nr : 8', 'nr : 8\ndr : 0.5')))
     if m['kind'] != 'pair':
@@ -385,9 +386,5 @@ def oracle(case):
 def search_cases(rng, n):
     for c in corpus(): yield c
     for _ in range(n): yield gen_case(rng)
-def finding_for(case, fails):
-    return 'C16-nonfinite' if fails and all(f.startswith('cutoff_nonfinite') for f in fails) else None
-def replay_finding(f):
-    if f.get('id') != 'C16-nonfinite': return False
-    r = run_text('[Tabulation]\ntarget : LAMMPS\nnr : 8\ncutoff : nan\n[Pair]\nAl-Al : as.constant 1.0\n')
-    return r[0] != 'CfgErr'
+def finding_for(case, fails): return None
+def replay_finding(f): return False
